@@ -57,6 +57,11 @@ def norm_guard(body, eb, term, val):
                 return ("err", inner)
         return ("variant", inner, val)
     if dty == "bool":
+        # a.saturating_sub(b) == 0  <=>  a <= b ;  != 0 / > 0  <=>  a > b
+        if d[0] == "bin" and d[1] in ("Eq", "Ne", "Gt") and d[3][0] == "c" and d[3][1] == 0 and isinstance(d[3][1], int) and not isinstance(d[3][1], bool) \
+                and d[2][0] == "call" and d[2][1].endswith("saturating_sub") and len(d[2][2]) == 2:
+            a_, b_ = d[2][2]
+            d = ("bin", "Le", a_, b_) if d[1] == "Eq" else ("bin", "Gt", a_, b_)
         if val == 0:
             return ("false", d)
         if isinstance(val, tuple) and val[0] == "not" and val[1] == [0]:
